@@ -39,8 +39,11 @@ type sets struct {
 
 func fieldSets(thorough bool) sets {
 	s := sets{
-		users:    []string{"a", "root", "a.b-c_d@e$", "ユーザー", strings.Repeat("x", 32)},
-		addrs:    []string{"1.2.3.4", "::1", "fe80::1%eth0", "2001:db8::ffff:1.2.3.4", "host.example.com"},
+		// "#012": the printable characters a client can type that look like rsyslog's escape of a line feed
+		users: []string{"a", "root", "a.b-c_d@e$", "ユーザー", strings.Repeat("x", 32), "dep#012loy"},
+		// addresses are recorded as printed: the upper-case, zero-padded, uncompressed and v4-mapped-hex
+		// spellings parse as IP addresses but are not what a canonicalising formatter would print
+		addrs:    []string{"1.2.3.4", "::1", "fe80::1%eth0", "2001:db8::ffff:1.2.3.4", "host.example.com", "FE80::0001", "0:0:0:0:0:0:0:1", "::ffff:a00:1"},
 		ports:    []string{"0", "22", "65535"},
 		keytypes: []string{"RSA", "DSA", "ECDSA", "ED25519", "ECDSA-SK", "ED25519-SK", "XMSS"},
 		fps:      []string{"SHA256:YI+caZKJCNaXgsD0NvRZ2fLaEeF46cEVyadru/SL76o", "MD5:aa:bb:cc:dd:ee:ff:00:11:22:33:44:55:66:77:88:99"},
@@ -54,8 +57,8 @@ func fieldSets(thorough bool) sets {
 		hosts:    []string{"1.2.3.4", "host.example.com", "fe80::1%eth0"},
 	}
 	if !thorough {
-		s.users = []string{"a", "a.b-c_d@e$", "ユーザー"}
-		s.addrs = []string{"1.2.3.4", "fe80::1%eth0", "host.example.com"}
+		s.users = []string{"a", "a.b-c_d@e$", "ユーザー", "dep#012loy"}
+		s.addrs = []string{"1.2.3.4", "fe80::1%eth0", "host.example.com", "FE80::0001"}
 		s.ports = []string{"0", "65535"}
 		s.keytypes = []string{"RSA", "ED25519", "ECDSA-SK"}
 		s.keyids = []string{"k", "a b", "x (serial 7)", "ID y", "two  blanks"}
